@@ -53,6 +53,14 @@ CLASS_MUTANTS = [
     ('pyclifford/circuit.py', 'CliffordGate.compile#generator', 'self.backward_map = clifford_rotation_map(-self.generator)', 'self.backward_map = clifford_rotation_map(self.generator)'),
     ('pyclifford/paulialg.py', 'pauli#chars', "        elif mu == 5 or mu == '-':\n            p = 2", "        elif mu == 5 or mu == '-':\n            p += 2"),
     ('pyclifford/paulialg.py', 'pauli#codes', '        return Pauli(g[:-2*h], p)', '        return Pauli(g[:-h], p)'),
+    ('pyclifford/circuit.py', 'MeasureLayer.backward#record', "                    tmp[self.qubits[-ii]]=3\n                    tmp_res = int((1-measure_result[-ii])/2)", "                    tmp[self.qubits[-ii]]=4\n                    tmp_res = int((1-measure_result[-ii])/2)"),
+    ('pyclifford/circuit.py', 'CliffordLayer.forward#state', '            for gate in self.gates:\n                gate.forward(obj)', '            for gate in self.gates:\n                gate.backward(obj)'),
+    ('pyclifford/circuit.py', 'CliffordGate.forward#any_state', '                obj.rotate_by(self.generator, mask(self.qubits, obj.N))', '                obj.rotate_by(self.generator, mask(self.qubits[1:], obj.N))'),
+    ('pyclifford/circuit.py', 'CliffordGate.copy#generator', '            gate.generator = self.generator.copy()', '            gate.generator = self.generator'),
+    ('pyclifford/stabilizer.py', 'StabilizerState.sample', '        gs, ps = pauli_combine(C, self.gs[self.r:self.N], self.ps[self.r:self.N])\n        return PauliList(gs, ps)\n    def get_prob', '        gs, ps = pauli_combine(C, self.gs[self.r:self.N], self.ps[:self.N-self.r])\n        return PauliList(gs, ps)\n    def get_prob'),
+    ('pyclifford/stabilizer.py', 'stabilizer_state#list', '    state.ps[state.r:state.N] = stabilizers.ps', '    state.ps[:state.N-state.r] = stabilizers.ps'),
+    ('pyclifford/stabilizer.py', 'random_bit_state_gs_ps', '        gs[N+i,2*i]=1', '        gs[N+i,2*i+1]=1'),
+    ('pyclifford/paulialg.py', 'PauliPolynomial.__getitem__#slice', '        return PauliPolynomial(self.gs[item], self.ps[item]).set_cs(self.cs[item])', '        return PauliPolynomial(self.gs[item]).set_cs(self.cs[item])'),
     ('pyclifford/circuit.py', 'CliffordGate.independent_from', 'return len(set(self.qubits) & set(other_gate.qubits))==0', 'return len(set(self.qubits[1:]) & set(other_gate.qubits))==0'),
 ]
 
